@@ -22,7 +22,7 @@ theorem Inv.wAlloc {s : State} (hI : Inv s) {h f v n ver : Nat} (hp : s.pc (.fr 
       rw [hfree] at this; cases this
   obtain ⟨kindC, kindF, lockOk, frWait, freshOk, freshUniq, freshVer, freshVerT, freshNode, wFreeTaken, preOk, postOk, ownOk, rsmTaken,
     freeTaken, pubNode, waiting, parked, listOk, scanOk, prevOk, placed, oScanOk, oNoneOk, aUnlockOk, aNextOk, aResumeOk, aFreeOk,
-    noRead, cTakeOk, allocUsed, noBad⟩ := hI
+    noRead, cTakeOk, cRemoveOk, allocUsed, noBad⟩ := hI
   have hnl : ∀ g, n ∉ s.glist g := by
     intro g hm
     have := ((listOk g).2.2 n hm).1
@@ -75,6 +75,7 @@ theorem Inv.wAlloc {s : State} (hI : Inv s) {h f v n ver : Nat} (hp : s.pc (.fr 
   case aFreeOk => inv_auto
   case noRead => inv_auto
   case cTakeOk => inv_auto
+  case cRemoveOk => inv_auto
   case allocUsed => inv_auto
   case noBad => inv_auto
 
